@@ -132,6 +132,9 @@ BENIGN = [
     ("ok-lexicon-as-defaultdict", "trees/grammar.py",
      "            if not word in lexicon:\n                lexicon[word] = Counter([])\n            lexicon[word].update([label])",
      "            lexicon.setdefault(word, Counter())[label] += 1"),
+    ("ok-export-reader-records-origin-on-nodes", "trees/treeinput.py",
+     "    tree = trees.Tree(node_by_num[num])\n    tree.data['terminals'] = []",
+     "    tree = trees.Tree(node_by_num[num])\n    tree.data['origin'] = 'export'\n    tree.data['terminals'] = []"),
 ]
 
 
